@@ -291,3 +291,204 @@ pub(crate) fn adj_in(tables: &TableHandle, addr: IpAddr, families: &[Family]) ->
     }
     out
 }
+
+// ---------------------------------------------------------------------------
+// Session admission rig (C16): the daemon's Global + accept_connection + PeerSession::run
+// over real loopback TCP connections from chosen 127.x.y.z source addresses
+// ---------------------------------------------------------------------------
+
+#[derive(Clone, Debug)]
+pub(crate) struct NeighborCfg {
+    pub(crate) addr: IpAddr,
+    pub(crate) remote_asn: u32,
+    pub(crate) local_asn: u32,
+    pub(crate) rs_client: bool,
+    pub(crate) rr_client: bool,
+    pub(crate) cluster_id: Option<Ipv4Addr>,
+    pub(crate) admin_down: bool,
+    pub(crate) holdtime: u64,
+    pub(crate) families: Vec<(Family, u8)>,
+    pub(crate) prefix_limit: Option<u32>,
+}
+
+#[derive(Clone, Debug)]
+pub(crate) struct GroupCfg {
+    pub(crate) name: String,
+    pub(crate) prefixes: Vec<(IpAddr, u8)>,
+    pub(crate) as_number: u32,
+    pub(crate) local_asn: u32,
+    pub(crate) rs_client: bool,
+    pub(crate) rr_client: bool,
+    pub(crate) cluster_id: Option<Ipv4Addr>,
+    pub(crate) holdtime: Option<u64>,
+    pub(crate) families: Vec<(Family, u8)>,
+}
+
+#[derive(Clone, Debug, PartialEq)]
+pub(crate) struct SessionView {
+    pub(crate) role: table::PeerRole,
+    pub(crate) local_asn: u32,
+    pub(crate) expected_remote_asn: u32,
+    pub(crate) local_cap: Vec<packet::Capability>,
+    pub(crate) cluster_id: Option<Ipv4Addr>,
+    pub(crate) confederation_id: u32,
+    pub(crate) holdtime: u64,
+    pub(crate) prefix_limits: Vec<(Family, u32)>,
+    pub(crate) dynamic: bool,
+}
+
+pub(crate) struct AdmitRig {
+    pub(crate) global: GlobalHandle,
+    pub(crate) tables: TableHandle,
+    listener: tokio::net::TcpListener,
+    active_tx: mpsc::UnboundedSender<TcpStream>,
+    _active_rx: mpsc::UnboundedReceiver<TcpStream>,
+}
+
+pub(crate) struct Conn {
+    pub(crate) client: Option<TcpStream>,
+    pub(crate) task: Option<tokio::task::JoinHandle<()>>,
+}
+
+impl AdmitRig {
+    pub(crate) async fn new(asn: u32, confederation: Option<(u32, Vec<u32>)>) -> Result<Self, String> {
+        let (tx, _rx) = mpsc::unbounded_channel();
+        let (bfd_tx, _bfd_rx) = mpsc::unbounded_channel();
+        let mut g = Global::new(tx, bfd_tx);
+        g.asn = asn;
+        g.router_id = Ipv4Addr::new(1, 0, 0, 1);
+        g.confederation = confederation.map(|(id, members)| ConfederationConfig { id, members: members.into_iter().collect() });
+        let listener = tokio::net::TcpListener::bind("127.0.0.1:0").await.map_err(|e| e.to_string())?;
+        let (active_tx, active_rx) = mpsc::unbounded_channel();
+        Ok(AdmitRig { global: Arc::new(tokio::sync::RwLock::new(g)), tables: Arc::new(TableManager::new(1)), listener, active_tx, _active_rx: active_rx })
+    }
+
+    pub(crate) async fn add_neighbor(&self, c: &NeighborCfg) -> bool {
+        let params = PeerParams {
+            remote_addr: c.addr,
+            remote_port: Global::BGP_PORT,
+            expected_remote_asn: c.remote_asn,
+            local_asn: c.local_asn,
+            passive: true,
+            rs_client: c.rs_client,
+            route_reflector: RouteReflectorConfig { route_reflector_client: c.rr_client, route_reflector_cluster_id: c.cluster_id },
+            delete_on_disconnected: false,
+            admin_down: c.admin_down,
+            state: SessionState::Idle,
+            holdtime: c.holdtime,
+            connect_retry_time: PeerParams::DEFAULT_CONNECT_RETRY_TIME,
+            multihop_ttl: None,
+            ttl_security: None,
+            password: None,
+            families: c.families.iter().copied().collect(),
+            send_max: FnvHashMap::default(),
+            prefix_limits: c.prefix_limit.map(|l| [(Family::IPV4, l)].into_iter().collect()).unwrap_or_default(),
+            graceful_restart: None,
+            llgr: None,
+            bfd_config: None,
+            neighbor_interface: None,
+            bind_interface: None,
+            export_policy: None,
+        };
+        self.global.write().await.add_peer(params, None).is_ok()
+    }
+
+    pub(crate) async fn add_group(&self, c: &GroupCfg) {
+        let pg = PeerGroup {
+            as_number: c.as_number,
+            dynamic_peers: c.prefixes.iter().map(|(a, l)| DynamicPeer { prefix: packet::IpNet::new(*a, *l) }).collect(),
+            route_server_client: c.rs_client,
+            holdtime: c.holdtime,
+            local_asn: c.local_asn,
+            passive: true,
+            route_reflector: RouteReflectorConfig { route_reflector_client: c.rr_client, route_reflector_cluster_id: c.cluster_id },
+            multihop_ttl: None,
+            ttl_security: None,
+            auth_password: None,
+            connect_retry_time: None,
+            families: c.families.iter().copied().collect(),
+            send_max: FnvHashMap::default(),
+            graceful_restart: None,
+            llgr: None,
+        };
+        self.global.write().await.peer_group.insert(c.name.clone(), pg);
+    }
+
+    pub(crate) async fn set_admin_down(&self, addr: IpAddr, down: bool) {
+        if let Some(p) = self.global.write().await.peers.get_mut(&addr) {
+            p.admin_down = down;
+        }
+    }
+
+    pub(crate) async fn has_peer(&self, addr: IpAddr) -> bool {
+        self.global.read().await.peers.contains_key(&addr)
+    }
+
+    /// TCP connection from `src`; the daemon's accept_connection decides. When a session is
+    /// created its run() is spawned (so that closing the client ends it the way the daemon does).
+    pub(crate) async fn connect(&self, src: IpAddr, active: bool) -> Result<(Option<SessionView>, Conn), String> {
+        let sock = tokio::net::TcpSocket::new_v4().map_err(|e| e.to_string())?;
+        sock.bind(SocketAddr::new(src, 0)).map_err(|e| format!("bind {src}: {e}"))?;
+        let dst = self.listener.local_addr().map_err(|e| e.to_string())?;
+        let (client, server) = tokio::join!(sock.connect(dst), self.listener.accept());
+        let client = client.map_err(|e| e.to_string())?;
+        let (server, _) = server.map_err(|e| e.to_string())?;
+        let role = if active { crate::fsm::Role::Active } else { crate::fsm::Role::Passive };
+        let session = accept_connection(&self.global, &self.tables, server, role).await;
+        match session {
+            None => Ok((None, Conn { client: Some(client), task: None })),
+            Some(s) => {
+                let g = self.global.read().await;
+                let peer = g.peers.get(&src).ok_or("session without a peer entry")?;
+                let mut pl: Vec<(Family, u32)> = s.prefix_counters.iter().map(|(f, (m, _))| (*f, *m)).collect();
+                pl.sort_by_key(|(f, _)| (f.afi(), f.safi()));
+                let view = SessionView {
+                    role: s.export_ctx.role,
+                    local_asn: s.export_ctx.local_asn,
+                    expected_remote_asn: peer.config.expected_remote_asn,
+                    local_cap: s.local_cap.clone(),
+                    cluster_id: s.cluster_id,
+                    confederation_id: s.export_ctx.confederation_id,
+                    holdtime: peer.config.holdtime,
+                    prefix_limits: pl,
+                    dynamic: peer.config.delete_on_disconnected,
+                };
+                drop(g);
+                let global = self.global.clone();
+                let tx = self.active_tx.clone();
+                let task = tokio::spawn(async move { s.run(global, tx).await });
+                Ok((Some(view), Conn { client: Some(client), task: Some(task) }))
+            }
+        }
+    }
+}
+
+impl Conn {
+    /// bytes the daemon sent on this connection so far and whether it closed it
+    pub(crate) async fn drain(&mut self, wait_ms: u64) -> (usize, bool) {
+        use tokio::io::AsyncReadExt;
+        let Some(c) = self.client.as_mut() else { return (0, true) };
+        let mut buf = [0u8; 4096];
+        let mut n = 0;
+        loop {
+            match tokio::time::timeout(Duration::from_millis(wait_ms), c.read(&mut buf)).await {
+                Err(_) => return (n, false),
+                Ok(Ok(0)) | Ok(Err(_)) => return (n, true),
+                Ok(Ok(k)) => n += k,
+            }
+        }
+    }
+
+    /// the remote end goes away; wait for the daemon's session task to finish
+    pub(crate) async fn close(&mut self) -> Result<(), String> {
+        self.client = None;
+        if let Some(t) = self.task.take() {
+            match tokio::time::timeout(Duration::from_secs(5), t).await {
+                Err(_) => return Err("the session task did not end within 5 s of the connection closing".into()),
+                Ok(Err(e)) => return Err(format!("the session task panicked: {e}")),
+                Ok(Ok(())) => {}
+            }
+        }
+        Ok(())
+    }
+}
